@@ -602,9 +602,55 @@ def rule_dedup(ctx):
     return res.finish(25)
 
 
+def rule_seedarms(ctx):
+    """OPTICS' get_seeds gives a neighbour its reachability from the current core point, max(core distance, distance):
+    once when the neighbour is first seeded, and again when a later core point improves it.  Both arms store the same
+    quantity; the improving arm compares that quantity with the old value."""
+    res = RuleResult("R-C08-seedarms", "get_seeds stores one and the same reachability value in the first-time arm and in the improving arm, and compares that value with the old one")
+    F = ctx.facts()
+    fns = [f for f in F.all_fns() if f["d"]["krate"] == "linfa_clustering" and f["d"]["name"] == "get_seeds" and not f.get("exp")]
+    if not fns:
+        res.missing_anchor("OpticsValidParams::get_seeds")
+    for fn in fns:
+        c = fn["crate"]
+        r = Render(c)
+        key = fn_key(fn)
+        res.instance(key)
+        stores = []
+        for y in walk(fn["body"]):
+            if y.get("k") == "Assign" and peel_refs(y["l"]).get("k") == "Field" and peel_refs(y["l"])["name"] == "reachability_distance":
+                v = peel_refs(y["r"])
+                if v.get("k") == "Call" and len(v["args"]) == 1:
+                    v = peel_refs(v["args"][0])
+                stores.append((y, v))
+        locs = [v.get("local") for _, v in stores]
+        if len(stores) < 2 or None in locs:
+            res.undecided("%s : store-shape" % key, "expected two stores of Some(<local>) into reachability_distance, found %d (fail closed)" % len(stores), fn_loc(fn))
+            continue
+        if len(set(locs)) != 1:
+            res.violate("%s : arms-store-different-values" % key, "the arms of get_seeds store different quantities as the reachability distance (`%s` and `%s`): one of them is not max(core distance, distance)" % (r.e(stores[0][1])[:20], r.e(stores[1][1])[:20]), fn_loc(fn, stores[1][0]["ln"]))
+            continue
+        # the guard of the improving arm compares the stored quantity
+        ok = True
+        for y in walk(fn["body"]):
+            if y.get("k") == "Match" and y.get("src", "Normal") == "Normal":
+                for a in y["arms"]:
+                    if a.get("guard") is not None and any(z is stores[0][0] or z is stores[1][0] for z in walk(a["body"])):
+                        g = strip(a["guard"])
+                        gl = set(z.get("local") for z in walk(g) if z.get("k") == "Path" and "local" in z)
+                        if locs[0] not in gl:
+                            ok = False
+                            res.violate("%s : guard-compares-other-value" % key, "the improving arm is taken under `%s`, which does not compare the value it stores (`%s`)" % (r.e(g)[:40], r.e(stores[0][1])[:20]), fn_loc(fn, g.get("ln")))
+        if ok:
+            res.ok()
+    return res.finish(1)
+
+
 def rules(tier):
     from . import carry, c04
     from . import precision
+    from . import c07
     return [rule_core, rule_self, rule_index, rule_order, rule_once, rule_memorder, rule_tie, rule_start, c07.rule_edge, c07.rule_unit,
             carry.make_clone_rule("R-C08-clone", {"linfa_clustering", "linfa_nn"}, 10), carry.make_setter_rule("R-C08-override", {"linfa_clustering"}, 10), c04.make_carry_rule("R-C08-carry", {"DbscanParams", "OpticsParams"}, 6),
-            precision.make_rule("R-C08-precision", lambda f: f["d"]["krate"] == "linfa_clustering" and any(x in f["d"]["path"] + " " + (f["d"].get("self_adt") or "") for x in ("dbscan", "optics", "Dbscan", "Optics")), 30, "linfa-clustering dbscan / optics"), rule_dedup]
+            precision.make_rule("R-C08-precision", lambda f: f["d"]["krate"] == "linfa_clustering" and any(x in f["d"]["path"] + " " + (f["d"].get("self_adt") or "") for x in ("dbscan", "optics", "Dbscan", "Optics")), 30, "linfa-clustering dbscan / optics"), rule_dedup,
+            carry.make_accessor_rule("R-C08-accessor", {"linfa_clustering", "linfa_nn"}, 10), carry.make_ctor_rule("R-C08-ctor", {"linfa_clustering", "linfa_nn"}, 4), rule_seedarms, c07.rule_dispatch]
